@@ -36,6 +36,12 @@ def uniqValues (J : Nat) (es : List (Nat × Rng)) : List Nat :=
     let d := J - e.1
     (List.range ((e.2.2 >>> k) - (e.2.1 >>> k))).map fun i => (4 <<< (2 * d)) + (e.2.1 >>> k) + i
 
+/-- `HpxUniq2DepthIdxIter`: the same cells as `(depth, index)` pairs, in emission order (depth, then index). -/
+def depthIdx (g J : Nat) (es : List (Nat × Rng)) : List (Nat × Nat) :=
+  es.flatMap fun e =>
+    let k := g * e.1
+    (List.range ((e.2.2 >>> k) - (e.2.1 >>> k))).map fun i => (J - e.1, (e.2.1 >>> k) + i)
+
 /-- `UniqToHpxIter`: every NUNIQ number of every NUNIQ range, one after the other, becomes the range of its cell
     at the deepest level of the index type. -/
 def uniqToHpx (w : Nat) : List Rng → List Rng
